@@ -11,14 +11,19 @@
 //!       DOC is saved by lopdf (STYLE = table|stream), prefixed with xJUNK, and then every step loads
 //!       the bytes as an IncrementalDocument, applies the OPs, saves and reloads.
 //!       OP = (set (id gen) obj) | (add obj) | (clone (id gen)) | (setkey (id gen) xKEY obj)
-//!          | (res (id gen)) | (xobj (id gen) xNAME (id gen))
+//!          | (res (id gen)) | (xobj (id gen) xNAME (id gen)) | (gs (id gen) xNAME (id gen))
+//!       Direct verdict on the resource helpers (get_or_create_resources / add_xobject / add_graphics_state), evaluated
+//!       on the document the update denotes (new objects over the previous view) with the nearest-ancestor rule:
+//!       the call changes no object outside the page and the page's own resources (so a page that does not share
+//!       them keeps its effective resources), and after save + reload the page's effective resources hold the new
+//!       name, every page shows what the update denoted.
 //!   (incraw HDR xBYTES LAYOUT (steps ...))
 //!       the same on top of a hand-assembled file.
 use lopdf::xref::{XrefEntry, XrefType};
 use lopdf::{Dictionary, Document, IncrementalDocument, Object, ObjectId};
 use lvh::conv::*;
 use lvh::sx::Sx;
-use std::collections::BTreeMap;
+use std::collections::{BTreeMap, BTreeSet};
 
 fn err_class(e: &lopdf::Error) -> &'static str {
     // lopdf::error is private: classify by the Debug form of the variant
@@ -130,6 +135,182 @@ fn diff_user(loaded: &BTreeMap<ObjectId, Object>, want: &BTreeMap<ObjectId, Obje
     None
 }
 
+// ---------------------------------------------------------------- effective resources of the denoted document
+type View = BTreeMap<ObjectId, Object>;
+
+/// the document an update denotes at this moment: the new objects over the previous view
+fn view_of(inc: &IncrementalDocument) -> View {
+    let mut v = inc.get_prev_documents().objects.clone();
+    for (id, o) in &inc.new_document.objects {
+        v.insert(*id, o.clone());
+    }
+    v
+}
+
+/// follow references (at most 64); every object id passed is pushed on `trail`
+fn vderef<'a>(v: &'a View, mut o: &'a Object, trail: &mut Vec<ObjectId>) -> Option<&'a Object> {
+    for _ in 0..64 {
+        match o {
+            Object::Reference(id) => {
+                trail.push(*id);
+                o = v.get(id)?;
+            }
+            _ => return Some(o),
+        }
+    }
+    None
+}
+
+fn vnode<'a>(v: &'a View, id: ObjectId, trail: &mut Vec<ObjectId>) -> Option<&'a Dictionary> {
+    trail.push(id);
+    match vderef(v, v.get(&id)?, trail)? {
+        Object::Dictionary(d) => Some(d),
+        _ => None,
+    }
+}
+
+/// canonical text of a resource dictionary: (category, name, value) sorted; a category that is not a dictionary
+/// is one entry
+fn flatten_resources(v: &View, r: &Dictionary, trail: &mut Vec<ObjectId>) -> String {
+    let mut rows = vec![];
+    for (cat, val) in r.iter() {
+        match vderef(v, val, trail) {
+            Some(Object::Dictionary(cd)) => {
+                rows.push(format!("{}/", Sx::bytes(cat).print()));
+                for (n, x) in cd.iter() {
+                    rows.push(format!("{}/{}={}", Sx::bytes(cat).print(), Sx::bytes(n).print(), obj_to_sx(x).print()));
+                }
+            }
+            Some(o) => rows.push(format!("{}={}", Sx::bytes(cat).print(), obj_to_sx(o).print())),
+            None => rows.push(format!("{}=?", Sx::bytes(cat).print())),
+        }
+    }
+    rows.sort();
+    rows.join(";")
+}
+
+/// effective resources of a page-tree node (nearest ancestor that has the entry), and the ids it was read from
+fn effective_resources(v: &View, id: ObjectId) -> (String, BTreeSet<ObjectId>) {
+    let mut trail = vec![];
+    let mut node = id;
+    let mut text = "(none)".to_string();
+    for _ in 0..=v.len() {
+        let d = match vnode(v, node, &mut trail) {
+            Some(d) => d,
+            None => {
+                text = "(undefined)".into();
+                break;
+            }
+        };
+        if let Ok(r) = d.get(b"Resources") {
+            text = match vderef(v, r, &mut trail) {
+                Some(Object::Dictionary(rd)) => flatten_resources(v, rd, &mut trail),
+                Some(o) => format!("(not a dictionary {})", obj_to_sx(o).print()),
+                None => "(dangling)".into(),
+            };
+            break;
+        }
+        match d.get(b"Parent").and_then(Object::as_reference) {
+            Ok(p) => node = p,
+            Err(_) => break,
+        }
+    }
+    (text, trail.into_iter().collect())
+}
+
+fn is_tree_node(v: &View, id: ObjectId) -> bool {
+    matches!(v.get(&id), Some(Object::Dictionary(d)) if d.has_type(b"Page") || d.has_type(b"Pages"))
+}
+
+fn all_effective(v: &View) -> BTreeMap<ObjectId, (String, BTreeSet<ObjectId>)> {
+    v.keys().filter(|id| is_tree_node(v, **id)).map(|id| (*id, effective_resources(v, *id))).collect()
+}
+
+/// what a resource helper called for `page` may rewrite: the page object and the objects its OWN Resources entry
+/// (and the category entry in it) is read from.  Second component: the call is in the domain where `ok` means "the
+/// entry was added" (page a dictionary, Resources absent or leading to a dictionary, the category absent or -- for
+/// XObject through references, for ExtGState directly -- a dictionary; no bare reference object of the update on the way:
+/// the helpers resolve those inside the update only and then do nothing)
+fn helper_scope(inc: &IncrementalDocument, v: &View, page: ObjectId, cat: Option<&[u8]>) -> (BTreeSet<ObjectId>, bool) {
+    let mut trail = vec![];
+    let mut dom = true;
+    'walk: {
+        let pd = match vnode(v, page, &mut trail) {
+            Some(d) => d,
+            None => {
+                dom = false;
+                break 'walk;
+            }
+        };
+        let rd = match pd.get(b"Resources") {
+            Err(_) => break 'walk,
+            Ok(r) => match vderef(v, r, &mut trail) {
+                Some(Object::Dictionary(rd)) => rd,
+                _ => {
+                    dom = false;
+                    break 'walk;
+                }
+            },
+        };
+        if let Some(cat) = cat {
+            if let Ok(c) = rd.get(cat) {
+                if cat == b"ExtGState" && !matches!(c, Object::Dictionary(_)) {
+                    dom = false;
+                }
+                if !matches!(vderef(v, c, &mut trail), Some(Object::Dictionary(_))) {
+                    dom = false;
+                }
+            }
+        }
+    }
+    if trail.iter().any(|id| matches!(inc.new_document.objects.get(id), Some(Object::Reference(_)))) {
+        dom = false;
+    }
+    (trail.into_iter().collect(), dom)
+}
+
+/// does the node's effective resource dictionary hold  /cat << /name x 0 R >>  ?
+fn has_resource(v: &View, page: ObjectId, cat: &[u8], name: &[u8], x: ObjectId) -> bool {
+    let want = format!("{}/{}={}", Sx::bytes(cat).print(), Sx::bytes(name).print(), obj_to_sx(&Object::Reference(x)).print());
+    effective_resources(v, page).0.split(';').any(|row| row == want)
+}
+
+struct Pending {
+    page: ObjectId,
+    cat: &'static [u8],
+    name: Vec<u8>,
+    x: ObjectId,
+    what: String,
+}
+
+/// the frame of one helper call on the denoted document
+fn helper_frame(before: &View, after: &View, scope: &BTreeSet<ObjectId>, page: ObjectId, what: &str) -> Option<String> {
+    for id in before.keys().chain(after.keys()) {
+        let same = match (before.get(id), after.get(id)) {
+            (Some(a), Some(b)) => same_obj(a, b),
+            _ => false,
+        };
+        if !same && !scope.contains(id) {
+            return Some(format!(
+                "{} rewrote object {} {}, which is neither the page nor part of the resources the page has in this update",
+                what, id.0, id.1
+            ));
+        }
+    }
+    let eb = all_effective(before);
+    let ea = all_effective(after);
+    for (q, (text, support)) in &eb {
+        if *q == page {
+            continue;
+        }
+        let now = ea.get(q).map(|e| e.0.as_str());
+        if now != Some(text.as_str()) && support.is_disjoint(scope) {
+            return Some(format!("{} changed the effective resources of the other page {} {}", what, q.0, q.1));
+        }
+    }
+    None
+}
+
 fn run_load(a: &[Sx]) -> (Sx, String) {
     let bytes = match a.get(1).and_then(|b| b.as_bytes()) {
         Some(b) => b,
@@ -211,6 +392,10 @@ fn apply_op(inc: &mut IncrementalDocument, op: &Sx) -> Option<Sx> {
             Ok(()) => Sx::id("ok"),
             Err(_) => Sx::id("err"),
         },
+        "gs" => match inc.add_graphics_state(oid_of_sx(&a[0])?, a[1].as_bytes()?, oid_of_sx(&a[2])?) {
+            Ok(()) => Sx::id("ok"),
+            Err(_) => Sx::id("err"),
+        },
         _ => return None,
     })
 }
@@ -236,15 +421,45 @@ fn run_steps(mut bytes: Vec<u8>, steps: &Sx, out: &mut Vec<Sx>) -> String {
         let prev_start = inc.get_prev_documents().xref_start;
         let prev_objects = inc.get_prev_documents().objects.clone();
         let mut rs = vec![];
-        for op in st.args() {
-            match apply_op(&mut inc, op) {
-                Some(r) => rs.push(r),
+        let mut pending: Vec<Pending> = vec![];
+        for (j, op) in st.args().iter().enumerate() {
+            // resource helpers: what the call may touch, judged on the document the update denotes before the call
+            let helper = match op.tag() {
+                Some("res") => Some(None),
+                Some("xobj") => Some(Some(&b"XObject"[..])),
+                Some("gs") => Some(Some(&b"ExtGState"[..])),
+                _ => None,
+            };
+            let before = if helper.is_some() || !pending.is_empty() { Some(view_of(&inc)) } else { None };
+            let r = match apply_op(&mut inc, op) {
+                Some(r) => r,
                 None => {
                     out.push(Sx::id("badop"));
                     return "skip".into();
                 }
+            };
+            if let Some(before) = before {
+                let after = view_of(&inc);
+                // an entry a later edit of this update replaces is no longer expected
+                pending.retain(|p| !(has_resource(&before, p.page, p.cat, &p.name, p.x) && !has_resource(&after, p.page, p.cat, &p.name, p.x)));
+                if let (Some(cat), Some(page)) = (helper, op.args().first().and_then(oid_of_sx)) {
+                    let what = format!("step {} edit {}: {}", k, j, op.print());
+                    let (scope, dom) = helper_scope(&inc, &before, page, cat);
+                    if let Some(why) = helper_frame(&before, &after, &scope, page, &what) {
+                        fail(&mut verdict, why);
+                    }
+                    if let (Some(cat), true, true) = (cat, dom, r.is_id("ok")) {
+                        let a = op.args();
+                        if let (Some(name), Some(x)) = (a.get(1).and_then(|n| n.as_bytes()), a.get(2).and_then(oid_of_sx)) {
+                            let cat: &'static [u8] = if cat == b"XObject" { b"XObject" } else { b"ExtGState" };
+                            pending.push(Pending { page, cat, name, x, what });
+                        }
+                    }
+                }
             }
+            rs.push(r);
         }
+        let final_view = view_of(&inc);
         let new_objects = inc.new_document.objects.clone();
         let mut next = Vec::new();
         if let Err(e) = inc.save_to(&mut next) {
@@ -295,6 +510,32 @@ fn run_steps(mut bytes: Vec<u8>, steps: &Sx, out: &mut Vec<Sx>) -> String {
                 }
                 if let Some(r) = diff_user(&d.objects, &want) {
                     fail(&mut verdict, format!("step {}: after reload {}", k, r));
+                }
+                // the replayed resource edits: the page can use the new name, every page shows what the update denoted
+                for p in &pending {
+                    if !has_resource(&d.objects, p.page, p.cat, &p.name, p.x) {
+                        fail(
+                            &mut verdict,
+                            format!(
+                                "{} returned ok but after save and reload the effective resources of page {} {} do not hold /{} /{} -> {} {} R",
+                                p.what,
+                                p.page.0,
+                                p.page.1,
+                                String::from_utf8_lossy(p.cat),
+                                String::from_utf8_lossy(&p.name),
+                                p.x.0,
+                                p.x.1
+                            ),
+                        );
+                    }
+                }
+                if !pending.is_empty() {
+                    let er = all_effective(&d.objects);
+                    for (q, (text, _)) in all_effective(&final_view) {
+                        if er.get(&q).map(|e| e.0.as_str()) != Some(text.as_str()) {
+                            fail(&mut verdict, format!("step {}: after reload page {} {} has other effective resources than the update denoted", k, q.0, q.1));
+                        }
+                    }
                 }
                 out.push(Sx::tagged("reload", vec![sorted_dict_sx(&d.trailer), Sx::num(d.max_id), Sx::num(d.xref_start), objs_sx(&d.objects)]));
             }
